@@ -320,6 +320,20 @@ func checkMain(args []string) int {
 				if !ok {
 					why = fmt.Sprintf("native end=%s msg=%s failed=%v", out.End, firstLine(out.Msg), out.Failed)
 				}
+				if out.End == "done" && len(out.Failed) > 0 {
+					// the real scheduler hit an interleaving in which an assertion fails: that is a
+					// natively observed violation (the engine may have followed another interleaving)
+					validated++
+					violations++
+					os.MkdirAll(replayDir, 0755)
+					path := filepath.Join(replayDir, p.name+".json")
+					p.in.Expect = &ReplayExpect{Kind: "assert", Assert: out.Failed[0]}
+					b, _ := json.MarshalIndent(p.in, "", " ")
+					os.WriteFile(path, b, 0644)
+					violLines = append(violLines, fmt.Sprintf("VIOLATION property=%s replay=%s", prop, path))
+					fmt.Printf("  detail: harness=%s native run of a witness scenario failed %v\n", p.in.Harness, out.Failed)
+					continue
+				}
 			} else if ok {
 				ok, why = tracesEqual(p.wit.Traces, out.Traces)
 			} else {
